@@ -604,7 +604,7 @@ FINDING_IDS = {
     "nil-through-type-test": "F13c01", "failed-match-binder": "F74", "tail-branch-never": "F66",
     "unify-recursive-tail": "F67", "partial-position": "F68", "implicit-nil-application": "F58",
     "star-partial-nil-binder": "F80", "typevar-capture": "F81",
-    "dead-chain-complement": "F86", "scalar-member-field-access": "F88",
+    "dead-chain-complement": "F86", "scalar-member-field-access": "F88", "callback-param-covariant": "F94",
     "union-widening-dropped": "F83",
 }
 
@@ -652,6 +652,7 @@ class Classifier:
                          ("partial-position", self.sig_partial), ("dead-chain-complement", self.sig_dead_chain),
                          ("nil-through-type-test", self.sig_f13),
                          ("typevar-capture", self.sig_typevar_capture),
+                         ("callback-param-covariant", self.sig_callback_param),
                          ("unify-recursive-tail", self.sig_unify_cycle),
                          ("union-widening-dropped", self.sig_union_widening),
                          ("tail-branch-never", self.sig_tail_never),
@@ -771,6 +772,36 @@ class Classifier:
         # (generic instantiation defects F67/F81/F2 have their own signatures)
         return bool(failure.get("fnres")) and "#<" not in s0 and not re.search(r"%(list|iter)\b", s0)
 
+    # ---- callback-param-covariant (F94): unify's Callable arm unifies a callback's PARAMETER like a
+    # covariant position - a type variable bound already just widens - so a callback that accepts
+    # only 'int is accepted where the variable is 'bin (`ap = #<'t>['t, #'t -> 'int] {..}`,
+    # `[0x01, #'int {..}] ap`). Signature: a generic callee (in the source, or %iter / %list) is
+    # handed a callback inside a bracketed argument (a function literal with an explicit
+    # parameter, or `&name`), and the failure is gone when that callback is replaced by a
+    # context-typed lambda, whose parameter is whatever the variable is (`#{ $ }`, `#{ 1 }`, ..).
+    CALLBACK_REF_RE = re.compile(r"(?<=[\[,])\s*&[a-z][A-Za-z0-9_]*[?]?[!]?(?=\s*[,\]])")
+
+    def sig_callback_param(self, src, mods, failure):
+        s0 = strip_strings(src)
+        if "#<" not in s0 and not re.search(r"%(list|iter)\b", s0):
+            return False
+        spans = []
+        flat = src.replace("[", "(").replace("]", ")").replace("{", "(").replace("}", ")")
+        for (b0, b1) in fn_literal_bodies(src):
+            h = src.rfind("#", 0, b0)
+            if h >= 0 and src[h + 1:b0].strip():            # explicit parameter type
+                spans.append((h, b1 + 1))
+        for m in self.CALLBACK_REF_RE.finditer(src):
+            spans.append((m.start(), m.end()))
+        variants = []
+        for (a0, a1) in spans[:3]:
+            for lam in ("#{ $ }", "#{ 1 }", "#{ Ok }", "#{ [] }"):
+                variants.append(src[:a0] + " " + lam + src[a1:])
+        if not variants:
+            return False
+        recs = self.outcomes(variants, mods)
+        return any(r["status"] == "accepted" and not r["failure"] for r in recs)
+
     # ---- unify-recursive-tail (F67, the residue left open by e5e2c4b): see below. Precondition: a
     # generic function `#<..>` whose header mentions a recursive alias, or %list / %iter.
     def sig_unify_cycle(self, src, mods, failure):
@@ -781,14 +812,13 @@ class Classifier:
         if not generic_rec and not re.search(r"%(list|iter)\b", s0):
             return False
         # what is still open after e5e2c4b (unify now follows back-references to BIND, a mismatch is
-        # still not an error): (a) a list literal whose spine does not end in Nil is accepted;
-        # (b) a callback's parameter is not checked against the variable widened by a
-        # heterogeneous list. Anything else about recursive arguments is a recurrence.
+        # still not an error): a list literal whose spine does not end in Nil is accepted. (The
+        # unchecked callback parameter is F94, below.) Anything else about recursive arguments is
+        # a recurrence.
         spines = cons_spines(src)
         bad_tail = any(heads and tail != "Nil" and not re.match(r"^[a-z~$]", tail) for _, _, heads, tail in spines)
         hetero = any(len(set(lit_shape(h) for h in heads)) >= 2 for _, _, heads, _ in spines)
-        callback = bool(fn_literal_bodies(src)) or re.search(r"[\[,]\s*&[a-z%]", strip_strings(src)) is not None
-        if not (bad_tail or (hetero and callback)):
+        if not bad_tail:
             return False
         # the failure depends on the recursive TAIL of a list literal: with every outermost
         # `Cons[h, t]` literal cut to `Cons[h, Nil]` (or to `t`) the program is accepted and passes
